@@ -324,3 +324,135 @@ class HandleDictItems(Contract):
     def covers(self, cx, ov, info):
         return [("handles-changed-keys", lambda k, p, s: z3.And(z3.BoolVal(k == "return"), z3.Length(self.ck) > 0)),
                 ("no-changed-key", lambda k, p, s: z3.And(z3.BoolVal(k == "return"), z3.Length(self.ck) == 0))]
+
+
+# ------------------------------------------------------------------------------------------------------------------
+# _register_simple: what is attached to one link of an extended name ('.' notifies, ':' does not)
+# ------------------------------------------------------------------------------------------------------------------
+@register
+class RegisterSimple(Contract):
+    """ListenerItem._register_simple(object, name, remove), the link `name` of an extended name on `object`:
+
+      * LAST link (no next item): the user's handler is attached to (object, name) -- or detached when remove -- with the item's
+        dispatch, priority and target; nothing else; (object, name) is returned;
+      * INTERMEDIATE link: the maintainer that re-hooks the rest of the chain when the link changes (handle_simple, or
+        handle_dst for a destination-style handler) is attached with dispatch 'extended' -- ALWAYS, notify or not;
+        the user's handler is attached to the intermediate link itself EXACTLY when the link notifies ('.') and the handler is
+        not destination-style: 'Changes to intermediate links are reported for '.' links and not for ':' links';
+        every attachment is made with the caller's remove flag (removal mirrors registration);
+        then the rest of the chain is unregistered from / registered on the link's CURRENT value, once
+        (registration is skipped only for a deferred item whose link has no value yet)."""
+    path = PATH
+    qualname = "ListenerItem._register_simple"
+    properties = ("C16",)
+    class_paths = (PATH,)
+    overloads = ("last-link", "intermediate/notify", "intermediate/quiet", "intermediate/notify-dst")
+    assumptions = ("A-PY", "object._on_trait_change is the legacy attachment primitive (used as a summary); self.handler() yields the user's handler")
+
+    def configure(self, cx, I, ov):
+        from vc.pyvc import source
+        consts = source.module_constants(PATH)
+        for n in ("DST_LISTENER", "SRC_LISTENER", "ANY_LISTENER"):
+            if n in consts:
+                cx.module_globals[n] = VInt(consts[n]) if isinstance(consts[n], int) else VStr(const=consts[n])
+        self.consts = consts
+        cx.const("Undefined")
+        self.user, self.cur, self.target, self.nxt = z3.Consts("user_handler current_value_of_the_link item_target next_item", Val)
+        self.remove, self.deferred, self.has_value = z3.Bool("remove"), z3.Bool("deferred"), z3.Bool("link_has_a_value")
+        lg = lambda st, rec: st.gset("log", st.ghost.get("log", ()) + (rec,))
+
+        def otc(I2, o, st, k):
+            return k(VFunc("opaque", name="_on_trait_change", apply=lambda I3, a, kw, s, kk: kk(NONE, lg(s, ("attach", tuple(a), dict(kw))))), st)
+        cx.elem_attrs["_on_trait_change"] = otc
+
+        def chain(name):
+            def h(I2, o, st, k):
+                return k(VFunc("opaque", name=name, apply=lambda I3, a, kw, s, kk: kk(VTuple([NONE, NONE]), lg(s, (name, tuple(a))))), st)
+            return h
+        cx.elem_attrs["register"] = chain("next.register")
+        cx.elem_attrs["unregister"] = chain("next.unregister")
+        dref_holder = {}
+
+        def dict_attr(I2, o, st, k):
+            return k(st.ghost["objdict_ref"], st)
+        cx.elem_attrs["__dict__"] = dict_attr
+        cx.dyn_getattr_hook = lambda I2, args, st, k: k(VElem(self.cur), lg(st, ("read-link", args[1])))
+
+        class GetTarget(Contract):
+            path = PATH
+            qualname = "ListenerItem._get_target"
+
+            def summary(self_, I2, self_ref, args, kwargs, st, k):
+                return k(VElem(self.target), st)
+        cx.contracts = dict(cx.contracts)
+        cx.contracts[("ListenerItem", "_get_target")] = GetTarget()
+        cx.contracts[("ListenerBase", "_get_target")] = GetTarget()
+
+    def setup(self, cx, I, ov):
+        st = St()
+        self.name = z3.String("link_name")
+        self.obj = z3.Const("object", Val)
+        D = z3.Const("object_dict", MapV)
+        dref = VRef(cx.new_oid())
+        st = st.put(dref.oid, HObj("dict", D)).gset("objdict_ref", dref)
+        st = st.assume((D[cx.box_str(self.name)] != Opt.none) == self.has_value)
+        self_ref = VRef(cx.new_oid())
+        dst = self.consts.get("DST_LISTENER")
+        src = self.consts.get("SRC_LISTENER", self.consts.get("ANY_LISTENER"))
+        mk = (lambda v: VInt(v)) if isinstance(dst, int) else (lambda v: VStr(const=v))
+        fields = {
+            "next": NONE if ov == "last-link" else VElem(self.nxt),
+            "handler": VFunc("opaque", name="self.handler", apply=lambda I2, a, kw, s, kk: kk(VElem(self.user), s)),
+            "notify": VBool(ov in ("intermediate/notify", "intermediate/notify-dst")),
+            "type": mk(dst) if ov == "intermediate/notify-dst" else mk(src),
+            "dispatch": VStr(const="same"), "priority": VBool(z3.Bool("priority")), "deferred": VBool(self.deferred)}
+        st = st.put(self_ref.oid, HObj("obj", None, "ListenerItem", fields))
+        st = st.assume(self.user != cx.const("Undefined").t, self.nxt != cx.const("None").t)
+        self.self_ref = self_ref
+        return st, [self_ref, VElem(self.obj), VStr(self.name), VBool(self.remove)], {}, dict(witness={"remove": self.remove, "deferred": self.deferred})
+
+    def post(self, cx, I, ov, info, kind, payload, st):
+        if kind == "raise":
+            return [("exc-free", z3.BoolVal(False), dict(exception="%s %r" % (payload.cname or payload.sym, payload.origin)))]
+        log = st.ghost.get("log", ())
+        att = [r for r in log if r[0] == "attach"]
+
+        def is_user(r):
+            return len(r[1]) >= 1 and isinstance(r[1][0], VElem) and r[1][0].t.eq(self.user)
+
+        def is_maint(r, names):
+            h = r[1][0] if r[1] else None
+            return isinstance(h, VFunc) and h.kind == "bound" and h.name in names and h.self_ref.oid == self.self_ref.oid
+
+        def common_ok(r):
+            a, kw = r[1], r[2]
+            return z3.And(z3.BoolVal(len(a) == 2 and isinstance(a[1], VStr) and a[1].t is not None and a[1].t.eq(self.name)),
+                          kw["remove"].t == self.remove if isinstance(kw.get("remove"), VBool) else z3.BoolVal(False),
+                          z3.BoolVal(isinstance(kw.get("target"), VElem) and kw["target"].t.eq(self.target)))
+        users = [r for r in att if is_user(r)]
+        out = [("post:every-attachment-is-on-this-link-with-the-caller's-remove-flag-and-the-item's-target", z3.And(*[common_ok(r) for r in att]) if att else z3.BoolVal(True))]
+        chain = [r for r in log if r[0] in ("next.register", "next.unregister")]
+        if ov == "last-link":
+            out += [("post:the-user-handler-is-attached-once-and-nothing-else", z3.BoolVal(len(att) == 1 and len(users) == 1)),
+                    ("post:with-the-item's-own-dispatch", z3.BoolVal(bool(users) and isinstance(users[0][2].get("dispatch"), VStr) and users[0][2]["dispatch"].const == "same")),
+                    ("post:no-further-link-is-walked", z3.BoolVal(not chain))]
+            return out
+        maint_names = {"intermediate/notify-dst": ("handle_dst",)}.get(ov, ("handle_simple",))
+        maint = [r for r in att if is_maint(r, maint_names)]
+        out.append(("post:the-maintainer-of-the-link-is-attached-once-with-extended-dispatch", z3.BoolVal(
+            len(maint) == 1 and isinstance(maint[0][2].get("dispatch"), VStr) and maint[0][2]["dispatch"].const == "extended")))
+        want_user = ov == "intermediate/notify"
+        out.append(("post:the-user-handler-hears-the-intermediate-link-iff-it-notifies-('.')-and-is-not-destination-style", z3.BoolVal(len(users) == (1 if want_user else 0))))
+        out.append(("post:nothing-else-is-attached", z3.BoolVal(len(att) == len(maint) + len(users))))
+        unreg = [r for r in chain if r[0] == "next.unregister"]
+        reg = [r for r in chain if r[0] == "next.register"]
+        on_current = z3.And(*[z3.BoolVal(len(r[1]) == 1 and isinstance(r[1][0], VElem) and r[1][0].t.eq(self.cur)) for r in chain]) if chain else z3.BoolVal(True)
+        out.append(("post:the-rest-of-the-chain-is-walked-on-the-link's-current-value", on_current))
+        out.append(("post:removal-unregisters-the-rest-of-the-chain-once", z3.Implies(self.remove, z3.BoolVal(len(unreg) == 1 and not reg))))
+        out.append(("post:registration-registers-the-rest-of-the-chain-once-unless-deferred-without-a-value", z3.Implies(
+            z3.Not(self.remove), z3.And(z3.BoolVal(not unreg), z3.BoolVal(len(reg) == 1) == z3.Or(z3.Not(self.deferred), self.has_value)))))
+        return out
+
+    def covers(self, cx, ov, info):
+        return [("registers", lambda k, p, s: z3.And(z3.BoolVal(k == "return"), z3.Not(self.remove))),
+                ("removes", lambda k, p, s: z3.And(z3.BoolVal(k == "return"), self.remove))]
